@@ -112,6 +112,7 @@ Section Codecs.
       match get_video_packer s with
       | (s1, None) => (s1, [])
       | (s1, Some (c, seq)) =>
+        if enhanced_too_short m then (s1, []) else
         let body := if (video_codec_id m =? codec_id_hevc) && is_enhanced_hevc_nalu m
                     then skipn (enhanced_nalu_index m) (rm_payload m) else skipn 5 (rm_payload m) in
         let pls := match iterate_nalu_avcc body with
